@@ -184,6 +184,29 @@ CHECKS = {
             "131 constructor cases (a rejected constructor leaves the parent "
             "unchanged).",
             "Removing an absent key is unspecified; tree depth bounded."),
+    "C04": ("model_checking",
+            "explicit-state BFS over protocol states with every command "
+            "(incl. commands issued from handlers/listeners) executed on the "
+            "real simulator; preemption-bounded exhaustive schedule "
+            "exploration (DFS re-execution under a controlled scheduler, "
+            "source-line scheduling points) of command/run-thread overlaps",
+            "coopsched",
+            "C04a: all reachable protocol states x 85 commands (8 plain "
+            "commands at quiescence + start/run_up_to with a command issued "
+            "from the run thread or from inside start() at 8 locations), "
+            "each transition re-executed on a fresh real simulator and "
+            "compared with the protocol reference (outcome, states, clock, "
+            "trace, live run threads, refused => no notification) plus the "
+            "stream monitor; all raw plain sequences to depth 4 (5). C04b: 7 "
+            "scenarios (start/stop, resume-after-pause with a failing "
+            "handler, stop/step/start, cleanup and initialize racing the run, "
+            "back-to-back bounded runs, rapid start/stop) - every schedule "
+            "with <=1 (S1: 2; thorough 2, S1: 3) preemptions; invariants "
+            "I1-I6 at scheduler-decided quiescence.",
+            "Line-level scheduling points in simulator.py; a runnable run "
+            "thread is not starved for 1 s; '?' cells accept refusal or "
+            "effect. 9 known-finding signatures (3 race families without a "
+            "small safe repair) in known_findings.json."),
 }
 
 NOT_YET = {}
